@@ -78,30 +78,33 @@ Connect ==
 
 NextId(e) == cnt.vital[e] + cnt.nv[e] + cnt.cl[e] + 1
 
+SendWith(e, v, sz, id) ==
+  LET r == SendOp(ep[e], [id |-> id, sz |-> sz, v |-> v])
+      okk == r.res = "ok"
+  IN /\ ep[e].st = "Onl"
+     /\ Apply(e, r)
+     /\ sub' = IF okk /\ v THEN [sub EXCEPT ![e] = Append(@, id)] ELSE sub
+     /\ snv' = IF okk /\ ~v THEN [snv EXCEPT ![e] = @ \cup {id}] ELSE snv
+     /\ cnt' = IF v THEN [cnt EXCEPT !.vital[e] = @ + 1] ELSE [cnt EXCEPT !.nv[e] = @ + 1]
+     /\ act' = [a |-> "send", e |-> e, v |-> v, sz |-> sz, id |-> id]
+     /\ UNCHANGED scl
 Send(e) ==
-  /\ e \in Senders /\ ep[e].st = "Onl"
+  /\ e \in Senders
   /\ \E v \in BOOLEAN, sz \in Sizes :
        /\ IF v THEN cnt.vital[e] < MaxVital ELSE cnt.nv[e] < MaxNV
-       /\ LET id == IF sz = 0 THEN 0 ELSE NextId(e)
-              r == SendOp(ep[e], [id |-> id, sz |-> sz, v |-> v])
-              okk == r.res = "ok"
-          IN /\ Apply(e, r)
-             /\ sub' = IF okk /\ v THEN [sub EXCEPT ![e] = Append(@, id)] ELSE sub
-             /\ snv' = IF okk /\ ~v THEN [snv EXCEPT ![e] = @ \cup {id}] ELSE snv
-             /\ cnt' = IF v THEN [cnt EXCEPT !.vital[e] = @ + 1] ELSE [cnt EXCEPT !.nv[e] = @ + 1]
-             /\ act' = [a |-> "send", e |-> e, v |-> v, sz |-> sz, id |-> id]
-  /\ UNCHANGED scl
+       /\ SendWith(e, v, sz, IF sz = 0 THEN 0 ELSE NextId(e))
 
+ConnlessWith(e, sz, id) ==
+  LET r == ConnlessOp(ep[e], [id |-> id, sz |-> sz])
+  IN /\ ep[e].st = "Onl"
+     /\ Apply(e, r)
+     /\ scl' = IF r.res = "ok" THEN [scl EXCEPT ![e] = @ \cup {id}] ELSE scl
+     /\ cnt' = [cnt EXCEPT !.cl[e] = @ + 1]
+     /\ act' = [a |-> "connless", e |-> e, sz |-> sz, id |-> id]
+     /\ UNCHANGED <<sub, snv>>
 SendConnless(e) ==
-  /\ e \in Senders /\ ep[e].st = "Onl" /\ cnt.cl[e] < MaxConnless
-  /\ \E sz \in Sizes :
-       LET id == IF sz = 0 THEN 0 ELSE NextId(e)
-           r == ConnlessOp(ep[e], [id |-> id, sz |-> sz])
-       IN /\ Apply(e, r)
-          /\ scl' = IF r.res = "ok" THEN [scl EXCEPT ![e] = @ \cup {id}] ELSE scl
-          /\ cnt' = [cnt EXCEPT !.cl[e] = @ + 1]
-          /\ act' = [a |-> "connless", e |-> e, sz |-> sz, id |-> id]
-  /\ UNCHANGED <<sub, snv>>
+  /\ e \in Senders /\ cnt.cl[e] < MaxConnless
+  /\ \E sz \in Sizes : ConnlessWith(e, sz, IF sz = 0 THEN 0 ELSE NextId(e))
 
 FlushApi(e) ==
   /\ ep[e].st = "Onl"
@@ -109,20 +112,19 @@ FlushApi(e) ==
   /\ act' = [a |-> "flush", e |-> e]
   /\ UNCHANGED <<sub, snv, scl, cnt>>
 
-Tick(e) ==
-  /\ TickDue(ep[e])                 \* only due ticks are explored (others are no-ops: TickNoop in the trace spec)
+TickAny(e) ==               \* tick() may be called at any time; when nothing is due it is a no-op
   /\ Apply(e, TickOp(ep[e]))
   /\ act' = [a |-> "tick", e |-> e]
   /\ UNCHANGED <<sub, snv, scl, cnt>>
+Tick(e) == TickDue(ep[e]) /\ TickAny(e)     \* the model explores due ticks only
 
-Disconnect(e) ==
-  /\ cnt.disc < MaxDisc
+DisconnectWith(e, r) ==
   /\ ep[e].st # "Disc" /\ (V7 \/ ep[e].st # "Unc")
-  /\ \E r \in Reasons :
-       /\ Apply(e, DisconnectOp(ep[e], r))
-       /\ act' = [a |-> "disconnect", e |-> e, r |-> r]
+  /\ Apply(e, DisconnectOp(ep[e], r))
+  /\ act' = [a |-> "disconnect", e |-> e, r |-> r]
   /\ cnt' = [cnt EXCEPT !.disc = @ + 1]
   /\ UNCHANGED <<sub, snv, scl>>
+Disconnect(e) == cnt.disc < MaxDisc /\ \E r \in Reasons : DisconnectWith(e, r)
 
 AdvanceBy(d) ==
   /\ ep' = [e \in E |-> AdvanceOp(ep[e], d)]
@@ -175,16 +177,16 @@ Forged(x) ==
     \cup (IF V7 THEN {[k |-> "connless", id |-> 999, sz |-> 5, tok |-> t, rt |-> x.their],
                       [k |-> "connless", id |-> 999, sz |-> 5, tok |-> x.own, rt |-> t]} ELSE {})
     : t \in ForeignTokens(x)}
-Forge(e) ==
-  /\ cnt.forge < MaxForge
-  /\ TokenFixed(ep[e])
-  /\ \E f \in Forged(ep[e]) :
-       /\ ~TokenException(ep[e], f)
-       /\ f.k = "connless" => f.tok # ep[e].own \/ f.rt # ep[e].their
-       /\ Apply(e, FeedOp(ep[e], f, Draw(e)))
-       /\ act' = [a |-> "forge", e |-> e, f |-> f]
+ForgeWith(e, f) ==
+  /\ Apply(e, FeedOp(ep[e], f, Draw(e)))
+  /\ act' = [a |-> "forge", e |-> e, f |-> f]
   /\ cnt' = [cnt EXCEPT !.forge = @ + 1]
   /\ UNCHANGED <<sub, snv, scl>>
+IsForeign(x, f) == /\ TokenFixed(x) /\ ~TokenException(x, f)
+                   /\ IF f.k = "connless" THEN f.tok # x.own \/ f.rt # x.their ELSE f.tok # Expected(x)
+Forge(e) ==
+  /\ cnt.forge < MaxForge
+  /\ \E f \in Forged(ep[e]) : IsForeign(ep[e], f) /\ ForgeWith(e, f)
 
 \* ----------------------------------------------------------------- C02: the fair suffix
 DeliverOldest(e) == /\ net[e] # <<>> /\ DeliverAt(e, 1, FALSE) /\ act' = [a |-> "deliver", from |-> e, i |-> 1]
@@ -232,7 +234,8 @@ C04Refusal == [][(act'.a = "send" /\ out'.res = "TooLongData") => UNCHANGED <<ep
 \* C02: while anything is unsent, unacknowledged or mid-handshake the deadline is finite
 C02Deadline == \A e \in E : Busy(ep[e]) => NeedsTick(ep[e]) # Inactive
 \* C03: a forged datagram changes nothing
-C03Inert == [][act'.a = "forge" => (UNCHANGED <<ep, net, del, ready, answered>> /\ out'.evs = <<>> /\ out'.outs = <<>>)]_vars
+C03Inert == [][(act'.a = "forge" /\ IsForeign(ep[act'.e], act'.f))
+                  => (UNCHANGED <<ep, net, del, ready, answered>> /\ out'.evs = <<>> /\ out'.outs = <<>>)]_vars
 \* tokens handed out are never reserved values
 C03Tokens == \A e \in E : TokenFixed(ep[e]) =>
                 (IF V7 THEN ep[e].own \notin {"FF", "Z0", "no"} ELSE ep[e].tok \notin {"FF", "Z0"})
@@ -243,4 +246,8 @@ Quiescent == \/ ep["c"].st = "Unc"
              \/ /\ ready = 1
                 /\ \A e \in E : VitalIds(del[Peer(e)]) = sub[e] /\ Idle(ep[e])
 Progress == stable ~> Quiescent
+
+\* refinement: the histories of ConnSys are a behaviour of the property-level Channel specification
+Ch == INSTANCE Channel
+ChannelSpec == Ch!ChannelSpec
 =============================================================================
